@@ -288,6 +288,10 @@ def run_c20(ctx):
                     subp = build(spec, plain=True)
                     subp.unit_timedelta = datetime.timedelta(hours=su_h)
             real_simulate(subp, sub_params, backward=bw)
+            if rng.random() < 0.3:
+                # the unit is (re)declared after the run, keeping the start date: another public way to set it
+                subp.unit_timedelta = datetime.timedelta(hours=1)
+                subp.set_last_datetime(datetime.datetime(2021, 6, 1), unit_timedelta=datetime.timedelta(hours=su_h), set_init_datetime=False)
             path = os.path.join(d, "sub%d.json" % i)
             subp.write_simple_json(path)
             success = subp.status == BaseProjectStatus.FINISHED_SUCCESS
